@@ -384,3 +384,16 @@ Proof.
   intros [| |g'] g H; cbn in H; try discriminate.
   destruct (gvalidate g') eqn:E; [|discriminate]. inversion H. subst. split; [reflexivity | exact E].
 Qed.
+
+(* saving over whatever was at the path (a longer or shorter genesis, junk, nothing) and loading gives the
+   genesis just saved *)
+Lemma gputs_last : forall ws start w, gputs start (ws ++ [w])%list = w.
+Proof. intros ws start w. unfold gputs. rewrite fold_left_app. reflexivity. Qed.
+
+Theorem genesis_overwrite : forall (start : gfile) (ws : list gfile) (g : genesis),
+  gvalidate g = true -> gload (gputs start (ws ++ [gsave g])%list) = Some g.
+Proof. intros start ws g H. rewrite gputs_last. apply genesis_roundtrip. exact H. Qed.
+
+Theorem genesis_overwrite_invalid : forall (start : gfile) (ws : list gfile) (g : genesis),
+  gvalidate g = false -> gload (gputs start (ws ++ [gsave g])%list) = None.
+Proof. intros start ws g H. rewrite gputs_last. unfold gsave, gload. rewrite H. reflexivity. Qed.
